@@ -54,6 +54,28 @@ Marshal(ver, body, kind, k1, e1, k2, e2) ==
     /\ good' = IF r.err = "nil" THEN good \cup {<<Len(wire), kind>>} ELSE good
     /\ UNCHANGED rpos
 
+\* ---- Marshal, independent of how the implementation splits the frame into Write calls (today: header, then
+\* body).  c is the sequence of Write calls it made: [offered, k (accepted), e (the writer reported an error)].
+\* The calls offer consecutive pieces of the frame; only the last one may fail or be accepted partly.
+RECURSIVE SumField(_, _, _)
+SumField(c, i, off) == IF i > Len(c) THEN 0 ELSE (IF off THEN c[i].offered ELSE c[i].k) + SumField(c, i + 1, off)
+MarshalAnyOK(ver, body, c, obs) ==
+    LET frame == Frame(ver, body)
+        nc == Len(c)
+        failed == nc > 0 /\ c[nc].e
+        n == SumField(c, 1, FALSE)
+    IN /\ \A i \in 1..nc : /\ c[i].k >= 0 /\ c[i].k <= c[i].offered
+                            /\ (i < nc => ~c[i].e /\ c[i].k = c[i].offered)
+       /\ (~failed => SumField(c, 1, TRUE) = Len(frame) /\ n = Len(frame))     \* the whole frame was offered and accepted
+       /\ (failed => SumField(c, 1, TRUE) <= Len(frame))
+       /\ obs.n = n /\ obs.err = (IF failed THEN "inj" ELSE "nil")
+       /\ obs.written = SubSeq(frame, 1, n)                                    \* exactly the first n bytes of the frame
+MarshalAny(ver, body, kind, c) ==
+    LET n == SumField(c, 1, FALSE)  failed == Len(c) > 0 /\ c[Len(c)].e IN
+    /\ wire' = wire \o SubSeq(Frame(ver, body), 1, n)
+    /\ good' = IF ~failed THEN good \cup {<<Len(wire), kind>>} ELSE good
+    /\ UNCHANGED rpos
+
 \* ---- Unmarshal on the rest of the stream, of which `avail` bytes arrive before `fault`.
 \* The outcome is a relation: obs = [n, err, ver, body] is acceptable iff UnmarshalOK.
 UnmarshalOK(data, avail, fault, kind, isGood, obs) ==
